@@ -293,7 +293,7 @@ func runC05(r *core.Run) {
 			mk func() *atlas.Built
 		}
 		var states []stt
-		for _, lay := range []string{"C", "F", "T", "S", "SS", "ST", "TS", "FS", "FT"} {
+		for _, lay := range []string{"C", "F", "T", "S", "SS", "ST", "TS", "FS", "FT", "DC", "DT"} {
 			lay := lay
 			states = append(states, stt{lay, func() *atlas.Built {
 				vals := make([]interface{}, n)
